@@ -386,7 +386,6 @@ class Frame:
             return
 
         stream, file_off, fmt = self._fileinfo
-        self._fileinfo = None
 
         if getattr(stream, 'closed', False):
             warnings.warn(
@@ -400,6 +399,9 @@ class Frame:
         stream.seek(file_off)
         data = stream.read(fmt.frame_size(self.width, self.height))
         _format_funcs.load(fmt, self._data, data, self.width, self.height)
+        # Only forget the file once it has been read: if reading failed, the next use reports it again
+        # instead of showing a blank image.
+        self._fileinfo = None
 
     def clear(self) -> None:
         """This clears the contents of the frame.
